@@ -34,6 +34,6 @@ META = dict(
     design_ref="DESIGN.md §6 C03",
     note="Trusted: Lean kernel + 3 standard axioms; Go unsafe pointer semantics; canaries detect only writes near the buffer. Known finding: "
          "overlapping bulk copies differ between back-ends (scope NDPAIR:overlap).",
-    technique="Lean 4 proof (bisimulation over the operation set, address bounds) + lock-step differential runs Go-backed vs C-backed",
+    technique="Lean 4 proof (bisimulation over the operation set, address bounds) + lock-step differential runs Go-backed vs C-backed + model regenerated from the Go source on every run by a translator (gen_eq_* theorems tie it to the hand-written model)",
 )
 READY = True
